@@ -334,8 +334,8 @@ func runSeq(k *kindSpec, kidx int, part kgo.Partitioner, ops []sop, seq []int, r
 	return "", "", -1, nres
 }
 
-func depthOf(k *kindSpec) int {
-	if ev.Thorough() {
+func depthOf(k *kindSpec, deep bool) int {
+	if deep {
 		return k.dThor
 	}
 	return k.dQuick
@@ -373,13 +373,13 @@ func newStatefulTotals() *statefulTotals {
 
 // exploreSeed runs every kind's full sequence space; must be called inside the
 // bubble of the given seed offset.
-func exploreSeed(r *ev.Run, seedOff int, tot *statefulTotals) {
+func exploreSeed(r *ev.Run, seedOff int, deep bool, tot *statefulTotals) {
 	ks := kinds()
 	workers := ev.Workers()
 	for ki := range ks {
 		k := &ks[ki]
 		ops := opsFor(k)
-		d := depthOf(k)
+		d := depthOf(k, deep)
 		total := pow(uint64(len(ops)), d)
 		var next atomic.Uint64
 		const chunk = 2048
@@ -446,11 +446,13 @@ func exploreSeed(r *ev.Run, seedOff int, tot *statefulTotals) {
 			r.NotExhaustive("stateful exploration of " + k.name + " stopped early after more than 200 violations")
 		}
 		tot.alphabets[k.name] = len(ops)
-		tot.depths[k.name] = d
+		if d > tot.depths[k.name] {
+			tot.depths[k.name] = d
+		}
 	}
 }
 
-func (tot *statefulTotals) publish(r *ev.Run, seeds []int) {
+func (tot *statefulTotals) publish(r *ev.Run, seeds []seedRun) {
 	var seqs int64
 	for _, n := range tot.seqs {
 		seqs += n
@@ -463,8 +465,8 @@ func (tot *statefulTotals) publish(r *ev.Run, seeds []int) {
 	r.Set("stateful_sequences_per_kind", tot.seqs)
 	r.Set("stateful_partition_calls", tot.steps)
 	r.Set("stateful_alphabet_size_per_kind", tot.alphabets)
-	r.Set("stateful_depth_per_kind", tot.depths)
-	r.Set("stateful_seed_offsets_ns", seeds)
+	r.Set("stateful_max_depth_per_kind", tot.depths)
+	r.Set("stateful_seed_plan", seeds)
 	r.Set("stateful_n_shrank_to_or_below_pinned_events_per_kind", tot.shrink)
 	r.Set("stateful_situation_classes", len(tot.classes))
 	r.Set("leastbackup_fresh_pick_not_least_backed_up", tot.freshNot)
